@@ -41,6 +41,8 @@ type Exec struct {
 	topFrame *Frame
 	mutexTerms []string
 	released map[string]bool
+	privateRefs []string // refs of non-escaping stack allocations made so far
+	outsideRefs []string // refs of specification-level method results (never private stack objects)
 }
 
 type genParent struct{ reach, gen string }
@@ -523,10 +525,10 @@ func (x *Exec) assumeAllocated(st *State, t types.Type, v string) {
 	t = types.Unalias(t)
 	switch t.Underlying().(type) {
 	case *types.Pointer, *types.Map:
-		x.c.assume(implies(st.Reach, or(eq(v, "nil"), sx("<", sx("ref", v), x.get(st, "alloc")))))
+		x.c.assume(implies(st.Reach, or(eq(v, "nil"), and(sx("<", sx("ref", v), x.get(st, "alloc")), x.notPrivate(sx("ref", v))))))
 	case *types.Slice:
 		a := sx("sl_arr", v)
-		x.c.assume(implies(st.Reach, and(or(eq(a, "nil"), sx("<", sx("ref", a), x.get(st, "alloc"))), x.sliceWF(v))))
+		x.c.assume(implies(st.Reach, and(or(eq(a, "nil"), and(sx("<", sx("ref", a), x.get(st, "alloc")), x.notPrivate(sx("ref", a)))), x.sliceWF(v))))
 	case *types.Basic:
 		if t.Underlying().(*types.Basic).Kind() == types.String {
 			x.c.assume(x.leIdx(x.c.idx(0), sx("s_len", v)))
